@@ -22,9 +22,10 @@ from vf.checks import c17
 PROP = "C18"
 LEVEL = "exploration"
 RULE = (
-    "case = (activity on spec A, spec B run afterwards) vs. B alone, in two fresh processes; non-trivial = A's "
-    "activity includes a search run of >= 5 generations and B uses an open-ended repetition or a recursive rule; "
-    "distinct by hash of the pair"
+    "case = (activity on spec A, use of spec B, order in {A then B, B constructed first, A's generator suspended around B}) "
+    "vs. B alone (and A alone), each arm in a fresh process; non-trivial = A's activity includes a search run of >= 5 "
+    "generations and B uses an open-ended repetition or a recursive rule, or A's python code defines a name that B uses; "
+    "distinct by hash of (pair, order)"
 )
 ASSUMPTIONS = [
     "both arms run under the same PYTHONHASHSEED and B's random seed is set by B's own settings",
@@ -36,6 +37,13 @@ def shards(tier: str) -> int:
     return 16
 
 
+GROWERS_SOLVABLE = [
+    # growers whose search also ARRIVES within 40 generations (population 20, 100 nodes): their generator can be
+    # suspended after a few solutions, with the cap raised
+    "<start> ::= <x>+\n<x> ::= 'a' | 'b'\nwhere len(str(<start>)) >= 30\n",
+    "<start> ::= <item>{3,}\n<item> ::= 'p' | 'q' <item>?\nwhere str(<start>).count('q') >= 25\n",
+    "<start> ::= <n> <x>*\n<n> ::= '1' | '2'\n<x> ::= 'a'\nwhere len(str(<start>)) >= 30\n",
+]
 GROWERS = [
     # specs whose runs make the adaptive tuner raise the repetition cap / node budget
     "<start> ::= <x>+\n<x> ::= 'a' | 'b'\nwhere len(str(<start>)) > 60\n",
@@ -49,30 +57,87 @@ OPEN_B = [
 ]
 
 
+# A's python code defines names that B uses as builtins or does not define at all; A is read with the standard
+# library (the default), so that its spec has several parts
+A_CODE = [
+    "max = 100\nsum = 3\n<start> ::= 'a' | 'b'\n",
+    "def sorted(x):\n    return [9]\n\nscale = 3\n<start> ::= <x>+\n<x> ::= 'a'\n",
+    "def check(s):\n    return True\n\ndef len(x):\n    return 2\n\n<start> ::= 'a'\n",
+]
+B_USES = [
+    "<start> ::= <d>{1,5}\n<d> ::= '1' | '5' | '9'\nwhere max(len(str(<start>)), 3) == 3\n",
+    "<start> ::= <d>+\n<d> ::= '1' | '2'\nwhere sum(int(c) for c in str(<start>)) >= 4\n",
+    "<start> ::= <d>{3}\n<d> ::= '1' | '2' | '3'\nwhere sorted(str(<start>)) == list(str(<start>))\n",
+    "<start> ::= <d>{1,3}\n<d> ::= '1' | '2'\nwhere len(str(<start>)) * scale >= 6\n",
+    "<start> ::= <d>{1,3}\n<d> ::= '1' | '2'\nwhere check(str(<start>))\n",
+]
+
+
 @st.composite
 def cases(draw: Any) -> dict[str, Any]:
-    if draw(st.booleans()):
+    if draw(st.integers(0, 3)) == 0:
+        # name-space channel
+        a = {"spec_text": draw(st.sampled_from(A_CODE)), "use_stdlib": draw(st.sampled_from([True, True, False])),
+             "settings": {"population_size": 5, "random_seed": 1, "max_nodes": 20}, "gens": 2, "desired": 2, "words": ["a"]}
+        b = {"spec_text": draw(st.sampled_from(B_USES)), "use_stdlib": draw(st.booleans()),
+             "settings": {"population_size": 8, "random_seed": draw(st.integers(0, 999)), "max_nodes": 30},
+             "gens": 4, "desired": 4, "words": draw(st.lists(st.sampled_from(["1", "12", "123", "111", "21", "159"]), max_size=3))}
+        return {"a": a, "b": b, "hashseed": draw(st.sampled_from([0, 7])), "repeat_a": 1,
+                "order": draw(st.sampled_from(["a_then_b", "b_first"]))}
+    order = draw(st.sampled_from(["a_then_b", "a_then_b", "b_first", "interleaved"]))
+    if draw(st.booleans()) or order != "a_then_b":
         a_text = draw(st.sampled_from(GROWERS))
     else:
         a_text = draw(c17.configs())["spec_text"]
     a = {"spec_text": a_text, "settings": {"population_size": draw(st.sampled_from([5, 10])), "random_seed": draw(st.integers(0, 999)),
                                          "max_nodes": draw(st.sampled_from([20, 60]))},
          "gens": draw(st.sampled_from([3, 8, 15])), "desired": draw(st.sampled_from([2, 30])), "words": draw(st.lists(st.sampled_from(["a", "ab", "aaa", "1a"]), max_size=2))}
-    if draw(st.booleans()):
+    if order in ("interleaved", "b_first"):
+        # A's generator is suspended after a few solutions (cap raised) while B is used / A's search raises the cap
+        # after B was constructed
+        a["spec_text"] = draw(st.sampled_from(GROWERS_SOLVABLE))
+        a["gens"] = 40
+        a["settings"] = dict(a["settings"], population_size=20, max_nodes=100)
+    if draw(st.booleans()) or order != "a_then_b":
         b_text = draw(st.sampled_from(OPEN_B))
         b = {"spec_text": b_text, "settings": {"population_size": 8, "random_seed": draw(st.integers(0, 999)), "max_nodes": 40},
              "gens": draw(st.integers(2, 6)), "desired": 5, "words": draw(st.lists(st.sampled_from(["aa", "ab", "xy;", "0.1", "11.01", "aaaa", "ab" * 13, "x" * 0 + "y" * 24 + "x;", "." + "01" * 14]), max_size=4))}
+        if order == "b_first":
+            # probes beyond the default cap of 20 iterations (strictly compared in this order)
+            b["words"] = b["words"][:2] + ["ab" * 13, "." + "01" * 14, "ab" * 10]
     else:
         b = draw(c17.configs())
-    return {"a": a, "b": b, "hashseed": draw(st.sampled_from([0, 7])), "repeat_a": draw(st.integers(1, 2))}
+    return {"a": a, "b": b, "hashseed": draw(st.sampled_from([0, 7])), "repeat_a": draw(st.integers(1, 2)), "order": order,
+            "take": [draw(st.integers(1, 3)), draw(st.integers(1, 4))], "parse_first": draw(st.booleans())}
+
+
+def scripts(case: dict[str, Any]) -> tuple[list[Any], list[Any], Any]:
+    """-> (B alone, B with A, A alone or None)"""
+    a, b = case["a"], case["b"]
+    order = case.get("order", "a_then_b")
+    use_b = [["parse", "B"], ["fuzz", "B"]] if case.get("parse_first") else [["fuzz", "B"], ["parse", "B"]]
+    alone_b = [["new", "B", b]] + use_b
+    act = []
+    for _ in range(case.get("repeat_a", 1)):
+        act += [["new", "A", a], ["fuzz", "A"], ["parse", "A"]]
+    if order == "a_then_b":
+        return alone_b, act + alone_b, None
+    if order == "b_first":
+        # B is constructed before anything happens on A and used afterwards
+        return alone_b, [["new", "B", b]] + act + use_b, None
+    k, m = case.get("take", [2, 2])
+    both = [["new", "A", a], ["start", "A", k], ["new", "B", b]] + use_b + [["resume", "A", m]]
+    return alone_b, both, None
 
 
 def check_case(case: dict[str, Any], ctx: Any = None) -> list[str]:
-    base = {"repo_src": common.SRC, "configs": [case["b"]]}
-    alone = c17.run_worker(dict(base, pad=0, delay=0.0), case["hashseed"], {}, common.VERIF_DIR)
-    after = c17.run_worker(dict(base, pad=0, delay=0.0, activity=[case["a"]] * case["repeat_a"]), case["hashseed"], {}, common.VERIF_DIR)
-    ra, rb = alone["report"][0], after["report"][0]
+    base = {"repo_src": common.SRC, "pad": 0, "delay": 0.0}
+    s_alone, s_both, s_a = scripts(case)
+    alone = c17.run_worker(dict(base, script=s_alone), case["hashseed"], {}, common.VERIF_DIR)
+    after = c17.run_worker(dict(base, script=s_both), case["hashseed"], {}, common.VERIF_DIR)
+    ra, rb = alone["report"]["B"], after["report"]["B"]
     msgs: list[str] = []
+    order = case.get("order", "a_then_b")
     # words with more than 20 iterations probe the parser's cap for open-ended repetitions (known finding)
     long_idx = [i for i, w in enumerate(case["b"].get("words", [])) if len(w) > 20]
     def strip(r: Any) -> Any:
@@ -84,8 +149,11 @@ def check_case(case: dict[str, Any], ctx: Any = None) -> list[str]:
         sa = [s[0] for s in ra.get("solutions", [])]
         sb = [s[0] for s in rb.get("solutions", [])]
         what = "solutions" if sa != sb else ("solution trees" if ra.get("solutions") != rb.get("solutions") else "parse results")
-        msgs.append(f"B's {what} depend on earlier activity on another instance A:\n alone  : {sa[:6]!r}\n after A: {sb[:6]!r}\n"
+        msgs.append(f"B's {what} depend on earlier activity on another instance A (order {order}):\n alone  : {sa[:6]!r} {ra.get('fuzz_error', '')}\n after A: {sb[:6]!r} {rb.get('fuzz_error', '')}\n"
                     f" A = {case['a']['spec_text'][:200]!r} ({case['a']['gens']} generations x{case['repeat_a']})\n B = {case['b']['spec_text'][:200]!r}")
+    elif json.dumps(ra, sort_keys=True) != json.dumps(rb, sort_keys=True) and order == "b_first":
+        msgs.append(f"B (constructed before the activity on A) parses a word with more than 20 iterations differently after A's activity; "
+                    f"B = {case['b']['spec_text'][:120]!r}")
     elif json.dumps(ra, sort_keys=True) != json.dumps(rb, sort_keys=True):
         msgs.append(f"[known:parser-cap] B's parse of a word with more than 20 iterations of an open-ended repetition depends on earlier "
                     f"activity on A; B = {case['b']['spec_text'][:120]!r}")
@@ -93,15 +161,17 @@ def check_case(case: dict[str, Any], ctx: Any = None) -> list[str]:
             ctx.count("known:parser-cap")
     if ctx is not None:
         openb = "{" in case["b"]["spec_text"] and ",}" in case["b"]["spec_text"] or "+" in case["b"]["spec_text"] or "*" in case["b"]["spec_text"]
-        ctx.case({"a": case["a"], "b": case["b"]}, case["a"]["gens"] >= 5 and bool(openb),
-                 ("a_grower" if case["a"]["spec_text"] in GROWERS else "a_generated", "b_open" if openb else "b_closed"),
+        ctx.case({"a": case["a"], "b": case["b"], "o": order, "t": case.get("take")},
+                 (case["a"]["gens"] >= 5 and bool(openb)) or case["a"]["spec_text"] in A_CODE,
+                 ("a_grower" if case["a"]["spec_text"] in GROWERS + GROWERS_SOLVABLE else ("a_code" if case["a"]["spec_text"] in A_CODE else "a_generated"),
+                  "b_open" if openb else "b_closed", "order=" + order),
                  sample={"A": case["a"]["spec_text"][:200], "A_generations": case["a"]["gens"], "B": case["b"]["spec_text"][:200],
                          "B_solutions_alone": [s[0] for s in ra.get("solutions", [])][:4]})
     return msgs
 
 
 def run_shard(ctx: Any) -> None:
-    n = 5 if ctx.tier == "quick" else 150
+    n = 8 if ctx.tier == "quick" else 150
 
     @given(cases())
     def test(case: dict[str, Any]) -> None:
